@@ -176,6 +176,8 @@ pub struct WorkerOut {
     pub total_violating_runs: u64,
     pub samples: Vec<Trace>,
     pub run_digests: Vec<(u64, u64)>,
+    #[serde(default)]
+    pub proc_cases: Vec<crate::proc_check::ProcCase>,
 }
 
 fn enter_sandbox(dir: &str) -> Result<(), String> {
@@ -206,6 +208,8 @@ pub fn worker_main(args: &[String]) -> i32 {
     let nruns: u64 = args[5].parse().unwrap();
     let dir = args[6].clone();
     let digests = args.iter().any(|a| a == "--digests");
+    // how many process-level cases this worker offers to the driver
+    let proc_quota: usize = if thorough { 64 } else { 12 };
     if let Err(e) = enter_sandbox(&dir) {
         let _ = std::fs::write(format!("{dir}/err.txt"), e);
         return 2;
@@ -220,6 +224,14 @@ pub fn worker_main(args: &[String]) -> i32 {
         let report = execute(&trace, &mut out.stats);
         if digests {
             out.run_digests.push((r, mix(&[trace.hash(), out.stats.digest])));
+        }
+        if out.proc_cases.len() < proc_quota {
+            for mut c in report.proc_cases.iter().cloned() {
+                match &mut c {
+                    crate::proc_check::ProcCase::Cli { run_index, .. } | crate::proc_check::ProcCase::Lsp { run_index, .. } => *run_index = r,
+                }
+                out.proc_cases.push(c);
+            }
         }
         out.runs_done += 1;
         if report.nontrivial {
@@ -245,6 +257,7 @@ pub fn worker_main(args: &[String]) -> i32 {
                         minimise_executions: spent,
                         trace: min_trace,
                         original_trace: Some(trace.clone()),
+                        proc_case: None,
                     });
                 }
             }
@@ -461,10 +474,45 @@ pub fn run(prop: &str, tier: &str, extra: &[String]) -> i32 {
                 minimise_executions: 0,
                 trace,
                 original_trace: None,
+                proc_case: None,
             });
         } else {
             eprintln!("simplc: harness error: {why} and no in-flight trace was found");
             return 2;
+        }
+    }
+
+    // process-level cross-check against the shipped binary (auxiliary, sampled, fault-free traces only)
+    let mut proc_cases: Vec<crate::proc_check::ProcCase> = res.outs.iter().flat_map(|o| o.proc_cases.iter().cloned()).collect();
+    proc_cases.sort_by_key(|c| c.run_index());
+    let proc_limit = if tier == "quick" { 40 } else { 500 };
+    proc_cases.truncate(proc_limit);
+    let mut proc_run = 0;
+    let mut proc_note = String::from("not applicable to this campaign");
+    if !proc_cases.is_empty() {
+        match std::env::var("SIMPLC_REPO_BIN").ok().map(PathBuf::from).filter(|p| p.exists()) {
+            Some(bin) => {
+                let (n, mismatches) = crate::proc_check::run_cases(prop, &bin, &proc_cases);
+                proc_run = n;
+                proc_note = format!("{n} fault-free executions replayed against {} (built from the current tree without the verif feature)", bin.display());
+                for (v, case) in mismatches {
+                    let run_index = case.run_index();
+                    found.entry(v.signature.clone()).or_insert(ReplayFile {
+                        property: v.property.clone(),
+                        signature: v.signature.clone(),
+                        detail: v.detail.clone(),
+                        seed,
+                        run_index,
+                        run_seed: run_seed(seed, prop, run_index),
+                        minimised: false,
+                        minimise_executions: 0,
+                        trace: generate(prop, tier == "thorough", run_index, seed),
+                        original_trace: None,
+                        proc_case: Some(case),
+                    });
+                }
+            }
+            None => proc_note = "skipped: SIMPLC_REPO_BIN not set or binary missing (run through ./check)".into(),
         }
     }
 
@@ -524,6 +572,7 @@ pub fn run(prop: &str, tier: &str, extra: &[String]) -> i32 {
             "workers": nworkers,
             "violating_runs": violating_runs,
             "known_findings_hit": known_hits,
+            "process_level_sample": {"cases_run": proc_run, "note": proc_note},
             "components_real": REAL_COMPONENTS,
             "components_stubbed": STUBBED_COMPONENTS,
             "exhaustive": false
@@ -570,6 +619,25 @@ pub fn replay(path: &str) -> i32 {
             return 2;
         }
     };
+    if let Some(case) = &rf.proc_case {
+        let Some(bin) = std::env::var("SIMPLC_REPO_BIN").ok().map(PathBuf::from).filter(|p| p.exists()) else {
+            eprintln!("simplc: process-level replay needs SIMPLC_REPO_BIN (run through ./check)");
+            return 2;
+        };
+        let (_, mismatches) = crate::proc_check::run_cases(&rf.property, &bin, std::slice::from_ref(case));
+        return match mismatches.first() {
+            Some((v, _)) => {
+                println!("VIOLATION property={} replay={}", v.property, path);
+                println!("  signature: {}", v.signature);
+                println!("  detail: {}", v.detail);
+                1
+            }
+            None => {
+                println!("replay of {path}: the shipped binary now agrees with the in-process prediction");
+                0
+            }
+        };
+    }
     let dir = PathBuf::from(format!("/dev/shm/simplc-{}-replay", std::process::id()));
     let _ = std::fs::remove_dir_all(&dir);
     if std::fs::create_dir_all(&dir).is_err() {
